@@ -55,8 +55,12 @@ func (c *Ctx) mentionsField(owner, field string) func(ast.Expr) bool {
 	return func(e ast.Expr) bool { return an.MentionsField(info, e, owner, field) }
 }
 
-// condEdges scans fn's condition blocks. classify returns (matched, passOnTrue): whether
-// the atomic condition is an instance of the check and which outcome lets execution go on.
+// condEdges scans fn's condition blocks. go/cfg keeps a whole short-circuit condition as one
+// node, so each condition is decomposed into its atomic operands (leaves of !, &&, ||).
+// classify is asked about every atom and returns (matched, passOnTrue): whether the atom is an
+// instance of the check and which truth value lets execution go on. For a matched atom the
+// pass edge is the outcome of the whole condition that implies the atom passed; the fail
+// edge is the outcome forced when the atom fails (both outcomes if not forced).
 func condEdges(fn *an.Fn, classify func(cond ast.Expr) (bool, bool)) (pass, fail []an.Edge, at []an.Point) {
 	for _, b := range fn.G.Blocks {
 		if !b.Live {
@@ -66,19 +70,118 @@ func condEdges(fn *an.Fn, classify func(cond ast.Expr) (bool, bool)) (pass, fail
 		if !ok {
 			continue
 		}
-		cond := b.Nodes[len(b.Nodes)-1].(ast.Expr)
-		m, onTrue := classify(an.Unparen(cond))
-		if !m {
-			continue
-		}
-		at = append(at, an.Point{B: b, I: len(b.Nodes) - 1})
-		if onTrue {
-			pass, fail = append(pass, t), append(fail, f)
-		} else {
-			pass, fail = append(pass, f), append(fail, t)
+		whole := b.Nodes[len(b.Nodes)-1].(ast.Expr)
+		for _, atom := range condAtoms(whole) {
+			m, onTrue := classify(atom)
+			if !m {
+				continue
+			}
+			matchedHere := false
+			for _, outcome := range []bool{true, false} {
+				if impliesAtom(whole, outcome, atom, onTrue) {
+					matchedHere = true
+					if outcome {
+						pass = append(pass, t)
+					} else {
+						pass = append(pass, f)
+					}
+				}
+			}
+			if o, det := forcedOutcome(whole, atom, !onTrue); det {
+				matchedHere = true
+				if o {
+					fail = append(fail, t)
+				} else {
+					fail = append(fail, f)
+				}
+			} else {
+				fail = append(fail, t, f)
+			}
+			if matchedHere {
+				at = append(at, an.Point{B: b, I: len(b.Nodes) - 1})
+			}
 		}
 	}
 	return
+}
+
+// condAtoms lists the atomic operands of a boolean expression.
+func condAtoms(e ast.Expr) []ast.Expr {
+	e = an.Unparen(e)
+	switch x := e.(type) {
+	case *ast.UnaryExpr:
+		if x.Op == token.NOT {
+			return condAtoms(x.X)
+		}
+	case *ast.BinaryExpr:
+		if x.Op == token.LAND || x.Op == token.LOR {
+			return append(condAtoms(x.X), condAtoms(x.Y)...)
+		}
+	}
+	return []ast.Expr{e}
+}
+
+// impliesAtom: does `e == outcome` imply `atom == val`?
+func impliesAtom(e ast.Expr, outcome bool, atom ast.Expr, val bool) bool {
+	e = an.Unparen(e)
+	if e == atom {
+		return outcome == val
+	}
+	switch x := e.(type) {
+	case *ast.UnaryExpr:
+		if x.Op == token.NOT {
+			return impliesAtom(x.X, !outcome, atom, val)
+		}
+	case *ast.BinaryExpr:
+		switch x.Op {
+		case token.LAND:
+			if outcome {
+				return impliesAtom(x.X, true, atom, val) || impliesAtom(x.Y, true, atom, val)
+			}
+		case token.LOR:
+			if !outcome {
+				return impliesAtom(x.X, false, atom, val) || impliesAtom(x.Y, false, atom, val)
+			}
+		}
+	}
+	return false
+}
+
+// forcedOutcome evaluates e knowing only atom == val (three-valued).
+func forcedOutcome(e ast.Expr, atom ast.Expr, val bool) (bool, bool) {
+	e = an.Unparen(e)
+	if e == atom {
+		return val, true
+	}
+	switch x := e.(type) {
+	case *ast.UnaryExpr:
+		if x.Op == token.NOT {
+			o, d := forcedOutcome(x.X, atom, val)
+			return !o, d
+		}
+	case *ast.BinaryExpr:
+		switch x.Op {
+		case token.LAND:
+			a, da := forcedOutcome(x.X, atom, val)
+			b, db := forcedOutcome(x.Y, atom, val)
+			if (da && !a) || (db && !b) {
+				return false, true
+			}
+			if da && db {
+				return true, true
+			}
+		case token.LOR:
+			a, da := forcedOutcome(x.X, atom, val)
+			b, db := forcedOutcome(x.Y, atom, val)
+			if (da && a) || (db && b) {
+				return true, true
+			}
+			if da && db {
+				return false, true
+			}
+		}
+	}
+	return false, false
 }
 
 // negated strips a leading ! and reports whether it did.
